@@ -21,7 +21,8 @@ static Verdict run(const Case &c) {
     int ic3 = c.c(9, 1) ? w.add_if(cc) : -1;
     Mac M = h.st_real(0);
     auto third = [&](int k) { return mac_from_u64(0x0400F0000000ULL + (uint64_t)k); };
-    auto srcsel = [&](int k) { return k == 0 ? A : k == 250 ? B : mac_from_u64(0x0400CC000000ULL + (uint64_t)k); };   // k in 0..255: A itself or a spoofed source
+    auto srcsel = [&](int k) { return k == 0 ? A : k == 250 ? B : (k >= 100 && k < 200) ? mac_from_u64((0x0400CC000000ULL + (uint64_t)(k - 100)) ^ 0xFFFF00000000ULL)   // twin of source k-100: other first two octets
+                                                                      : mac_from_u64(0x0400CC000000ULL + (uint64_t)k); };   // k in 0..255: A itself or a spoofed source
     // B must report these (real source A, Ethernet source, Ethernet destination B); and must not report frames for third stations
     std::set<QDesc> must;          // keyed without type
     std::set<Mac> forbidden_edst;  // third-station destinations A emitted to
@@ -154,7 +155,7 @@ int main(int argc, char **argv) {
                 for (int i = 0; i < nd; i++) {
                     o.blob.push_back((uint8_t)*gx::pick({0, 1}));
                     o.blob.push_back((uint8_t)*gx::bnd({0, 1, 255}, 0, 255, 1, 1));
-                    o.blob.push_back((uint8_t)*gx::pick({0, 0, 0, 1, 2, 200, 250}));
+                    o.blob.push_back((uint8_t)*gx::pick({0, 0, 0, 1, 2, 200, 250, 101, 102, 1, 2}));
                     o.blob.push_back((uint8_t)*gx::pick({0, 0, 0, 1, 2, 3}));
                 }
             } else if (k <= 7) { o.kind = K_NOISE; o.a = {*gx::range<int64_t>(0, 7), *hg::seq_gen(), *hg::gen_gen()}; }
